@@ -26,7 +26,7 @@ from sim.core import Prng, mix
 from sim.history import HistoryViolation, Recorder, run_machine
 
 PROP = "C07"
-ENGINE = "history"
+ENGINE = "history+fakemp"
 LEVEL = "exploration"
 BUDGET = dict(quick=110.0, thorough=1500.0)
 BATCH = 1
@@ -43,10 +43,12 @@ RULE = (
     "histories with >= 2 rules."
 )
 ASSUMPTIONS = [
-    "sequential library mode (the schedule quantifier is C05's)",
+    "rules run sequentially or (worker count 2-3) as simulated parent process under the seeded fake-multiprocessing scheduler; "
+    "module-level memo caches (functools.lru_cache) of the yaw package are virtualised per simulated process with fork "
+    "semantics (sim/procstate.py); other module-level state is shared between simulated processes",
     "the 'fresh' reference is the same library on a cache stripped of trees and binning files",
 ]
-PROBES = ["rebuild_same_nbins", "closed_side_switch", "binned_to_unbinned", "unbinned_to_binned", "forced_rebuild", "measure_after_foreign_build", "reopen"]
+PROBES = ["rebuild_same_nbins", "closed_side_switch", "binned_to_unbinned", "unbinned_to_binned", "forced_rebuild", "measure_after_foreign_build", "reopen", "op_under_parallel_schedule"]
 REAL_VS_STUB = dict(real="all of yaw (sequential), pickle, tmpfs", stub="none (Hypothesis generates the history)")
 
 # binning pool built to collide
@@ -85,12 +87,23 @@ def case_size(case: dict) -> int:
 
 
 def shrinks(case: dict):
+    from sim.history import shrink_history
+
     hist = case.get("history")
     if not hist:
         return
-    for i in range(len(hist) - 1):
+
+    def simplify(op):
+        if op[0] == "build" and op[3]:
+            yield ["build", op[1], op[2], False, *op[4:]]
+        if op[0] == "cross" and op[2] != 2:
+            yield ["cross", op[1], 2, *op[3:]]
+        if len(op) >= 2 and isinstance(op[-2], int) and op[-2] > 1 and op[0] in ("build", "cross", "auto", "hist", "reopen"):
+            yield [*op[:-2], 1, 0]  # sequential instead of parallel
+
+    for h in shrink_history(hist, simplify):
         c = copy.deepcopy(case)
-        c["history"] = hist[:i] + hist[i + 1 :]
+        c["history"] = h
         yield c
     if case["k"] > 2:
         c = copy.deepcopy(case)
@@ -137,6 +150,10 @@ class Model:
         self.fresh = fresh_cache  # memo shared by all examples of the case
         self.rec = rec or Recorder()
         self.ops: list = []
+        from sim import procstate
+
+        procstate.uninstall()
+        procstate.install()  # one session: fresh process-local memo caches
         self.paths = scenes.copy_scene(tpl, os.path.join(root, "state"))
         with scenes.sequential_mode():
             self.cats = {n: yaw.Catalog(self.paths[n], max_workers=1) for n in scenes.CATS}
@@ -146,25 +163,58 @@ class Model:
     def _fresh(self, key: tuple, fn):
         if key not in self.fresh:
             import yaw
+            from sim.isolate import run_isolated
 
             tmp = tempfile.mkdtemp(prefix="fresh-", dir=os.path.dirname(self.root))
-            try:
+
+            def compute():
+                # a forked child: no in-process state of the session under test is
+                # seen or left behind
                 paths = scenes.copy_scene(self.tpl, os.path.join(tmp, "s"))
                 with scenes.sequential_mode():
                     cats = {n: yaw.Catalog(paths[n], max_workers=1) for n in scenes.CATS}
                     try:
-                        self.fresh[key] = ("ok", fn(cats))
+                        return ("ok", fn(cats))
                     except Exception as err:  # noqa: BLE001
-                        self.fresh[key] = ("raises", type(err).__name__)
+                        return ("raises", type(err).__name__)
+
+            try:
+                res = run_isolated(compute)
+                self.fresh[key] = res[1] if res[0] == "ok" else ("raises", res[1])
             finally:
                 shutil.rmtree(tmp, ignore_errors=True)
         return self.fresh[key]
 
     def apply(self, op: list) -> None:
         self.ops.append(list(op))
-        with scenes.sequential_mode():
-            getattr(self, "op_" + op[0])(*op[1:])
-            self._invariant(op)
+        getattr(self, "op_" + op[0])(*op[1:])
+        self._invariant(op)
+
+    def _exec(self, fn, workers: int, seed: int, label: str):
+        """Run ``fn`` as the session's (parent) process: sequentially, or as
+        simulated process ``main`` with ``workers`` pool workers under a seeded
+        schedule.  Exceptions of the library propagate."""
+        if workers <= 1:
+            with scenes.sequential_mode():
+                return fn()
+        from sim import fakemp
+        from sim.core import Sim, Verdict
+
+        self.rec.probe("op_under_parallel_schedule")
+        sim = Sim(seed, fs_root=self.root, cores=workers, step_cap=150_000)
+        try:
+            with fakemp.patched(sim):
+                verdict = sim.run(fn)
+            if verdict != Verdict.COMPLETE:
+                raise HistoryViolation(
+                    dict(property=PROP, failing_rule=label, outcome=verdict),
+                    f"{label} with {workers} workers: {verdict} {sim.blocked_report} after history {self.ops[:-1]}",
+                )
+            if sim.main.exc is not None:
+                raise sim.main.exc
+            return sim.main.result
+        finally:
+            sim.cleanup()
 
     def _note_transition(self, name: str, new) -> None:
         old = self.last_binning.get(name, "none")
@@ -180,27 +230,37 @@ class Model:
         self.last_binning[name] = new
 
     # ---- rules
-    def op_build(self, name: str, pool_idx, force: bool) -> None:
+    def op_build(self, name: str, pool_idx, force: bool, workers: int = 1, seed: int = 0) -> None:
         cat = self.cats[name]
         b = None if pool_idx is None else POOL[pool_idx]
         if force:
             self.rec.probe("forced_rebuild")
-        try:
+        mw = None if workers > 1 else 1
+
+        def fn():
             if b is None:
-                cat.build_trees(None, force=force, max_workers=1)
+                cat.build_trees(None, force=force, max_workers=mw)
             else:
-                cat.build_trees(b[0], closed=b[1], force=force, max_workers=1)
+                cat.build_trees(b[0], closed=b[1], force=force, max_workers=mw)
+
+        try:
+            self._exec(fn, workers, seed, "build")
+        except HistoryViolation:
+            raise
         except Exception:  # noqa: BLE001 - e.g. unbound local for an empty patch: not a verdict
             self.last_binning[name] = "none"
             return
         self._note_transition(name, None if b is None else (list(b[0]), b[1]))
 
-    def _measure(self, label: str, key: tuple, fn) -> None:
-        status, ref = self._fresh(key, fn)
+    def _measure(self, label: str, key: tuple, fn, workers: int = 1, seed: int = 0) -> None:
+        status, ref = self._fresh(key, lambda cats: fn(cats, 1))
         if any(v != "none" for v in self.last_binning.values()):
             self.rec.probe("measure_after_foreign_build")
+        mw = None if workers > 1 else 1
         try:
-            got = fn(self.cats)
+            got = self._exec(lambda: fn(self.cats, mw), workers, seed, label)
+        except HistoryViolation:
+            raise
         except Exception as err:  # noqa: BLE001
             if status == "raises":
                 return
@@ -217,22 +277,22 @@ class Model:
                 f"{label} after history {self.ops[:-1]} differs from the measurement on fresh caches: {msg}",
             )
 
-    def op_cross(self, pool_idx: int, randoms: int) -> None:
+    def op_cross(self, pool_idx: int, randoms: int, workers: int = 1, seed: int = 0) -> None:
         import yaw
 
         edges, closed = POOL[pool_idx]
         cfg = _config(edges, closed)
 
-        def fn(cats):
+        def fn(cats, mw):
             rk = {}
             if randoms & 1:
                 rk["ref_rand"] = cats["rref"]
             if randoms & 2:
                 rk["unk_rand"] = cats["runk"]
-            cfs = yaw.crosscorrelate(cfg, cats["ref"], cats["unk"], max_workers=1, **rk)
+            cfs = yaw.crosscorrelate(cfg, cats["ref"], cats["unk"], max_workers=mw, **rk)
             return [orc.corrfunc_state(cf) for cf in cfs]
 
-        self._measure("cross", ("cross", pool_idx, randoms), fn)
+        self._measure("cross", ("cross", pool_idx, randoms), fn, workers, seed)
         for nm, b in (("ref", (list(edges), closed)), ("unk", None)):
             self._note_transition(nm, b)
         if randoms & 1:
@@ -240,41 +300,53 @@ class Model:
         if randoms & 2:
             self._note_transition("runk", None)
 
-    def op_auto(self, pool_idx: int, which: int) -> None:
+    def op_auto(self, pool_idx: int, which: int, workers: int = 1, seed: int = 0) -> None:
         import yaw
 
         edges, closed = POOL[pool_idx]
         cfg = _config(edges, closed)
         data, rand = (("ref", "rref"), ("unk", "runk"))[which]
 
-        def fn(cats):
-            cfs = yaw.autocorrelate(cfg, cats[data], cats[rand], max_workers=1)
+        def fn(cats, mw):
+            cfs = yaw.autocorrelate(cfg, cats[data], cats[rand], max_workers=mw)
             return [orc.corrfunc_state(cf) for cf in cfs]
 
-        self._measure("auto", ("auto", pool_idx, which), fn)
+        self._measure("auto", ("auto", pool_idx, which), fn, workers, seed)
         self._note_transition(data, (list(edges), closed))
         self._note_transition(rand, (list(edges), closed))
 
-    def op_hist(self, name: str, pool_idx: int) -> None:
+    def op_hist(self, name: str, pool_idx: int, workers: int = 1, seed: int = 0) -> None:
         import yaw
 
         edges, closed = POOL[pool_idx]
         cfg = _config(edges, closed)
 
-        def fn(cats):
-            return orc.sampled_state(yaw.HistData.from_catalog(cats[name], cfg, max_workers=1))
+        def fn(cats, mw):
+            return orc.sampled_state(yaw.HistData.from_catalog(cats[name], cfg, max_workers=mw))
 
-        self._measure("hist", ("hist", name, pool_idx), fn)
+        self._measure("hist", ("hist", name, pool_idx), fn, workers, seed)
 
-    def op_reopen(self, name: str) -> None:
+    def op_reopen(self, name: str, workers: int = 1, seed: int = 0) -> None:
         import yaw
 
         self.rec.probe("reopen")
-        self.cats[name] = yaw.Catalog(self.paths[name], max_workers=1)
+        mw = None if workers > 1 else 1
+        self.cats[name] = self._exec(lambda: yaw.Catalog(self.paths[name], max_workers=mw), workers, seed, "reopen")
 
     # ---- invariant: cached trees equal a fresh build for the stored binning
     def _invariant(self, op: list) -> None:
-        from yaw.binning import Binning
+        """Evaluated in a forked child, so that reading the cached trees neither
+        sees nor alters in-process state of the session (memo caches)."""
+        from sim.isolate import run_isolated
+
+        res = run_isolated(lambda: self._invariant_problem(op))
+        if res[0] != "ok":
+            raise RuntimeError(f"invariant evaluation failed: {res}")
+        if res[1] is not None:
+            sig, detail = res[1]
+            raise HistoryViolation(sig, detail)
+
+    def _invariant_problem(self, op: list):
         from yaw.catalog.trees import BinnedTrees, build_trees
 
         for name, cat in self.cats.items():
@@ -298,11 +370,12 @@ class Model:
                     for a, b in zip(c, f)
                 )
                 if not ok:
-                    raise HistoryViolation(
+                    return (
                         dict(property=PROP, failing_rule=op[0], outcome="stale_trees"),
                         f"after {self.ops}: {name}/patch_{pid} stores binning {bt.binning} but its trees.pkl holds "
                         f"{[t.num_records for t in c]} records per tree, a fresh build gives {[t.num_records for t in f]}",
                     )
+        return None
 
 
 def _machine_factory(case: dict, tpl: str, root: str, fresh: dict, rec: Recorder):
@@ -311,6 +384,8 @@ def _machine_factory(case: dict, tpl: str, root: str, fresh: dict, rec: Recorder
 
     names = st.sampled_from(list(scenes.CATS))
     pool = st.integers(0, len(POOL) - 1)
+    nworkers = st.sampled_from([1, 1, 1, 2, 3])
+    seeds = st.integers(0, 1 << 16)
 
     class Machine(RuleBasedStateMachine):
         def __init__(self) -> None:
@@ -325,27 +400,30 @@ def _machine_factory(case: dict, tpl: str, root: str, fresh: dict, rec: Recorder
                 rec.last_failure = (list(self.model.ops), err)
                 raise
 
-        @rule(name=names, b=st.one_of(st.none(), pool), force=st.sampled_from([False, False, False, True]))
-        def build(self, name, b, force):
-            self._do(["build", name, b, force])
+        @rule(name=names, b=st.one_of(st.none(), pool), force=st.sampled_from([False, False, False, True]), w=nworkers, s=seeds)
+        def build(self, name, b, force, w, s):
+            self._do(["build", name, b, force, w, s if w > 1 else 0])
 
-        @rule(b=pool, randoms=st.sampled_from([1, 2, 3]))
-        def cross(self, b, randoms):
-            self._do(["cross", b, randoms])
+        @rule(b=pool, randoms=st.sampled_from([1, 2, 3]), w=nworkers, s=seeds)
+        def cross(self, b, randoms, w, s):
+            self._do(["cross", b, randoms, w, s if w > 1 else 0])
 
-        @rule(b=pool, which=st.sampled_from([0, 0, 1]))
-        def auto(self, b, which):
-            self._do(["auto", b, which])
+        @rule(b=pool, which=st.sampled_from([0, 0, 1]), w=nworkers, s=seeds)
+        def auto(self, b, which, w, s):
+            self._do(["auto", b, which, w, s if w > 1 else 0])
 
-        @rule(name=names, b=pool)
-        def hist(self, name, b):
-            self._do(["hist", name, b])
+        @rule(name=names, b=pool, w=nworkers, s=seeds)
+        def hist(self, name, b, w, s):
+            self._do(["hist", name, b, w, s if w > 1 else 0])
 
-        @rule(name=names)
-        def reopen(self, name):
-            self._do(["reopen", name])
+        @rule(name=names, w=nworkers, s=seeds)
+        def reopen(self, name, w, s):
+            self._do(["reopen", name, w, s if w > 1 else 0])
 
         def teardown(self):
+            from sim import procstate
+
+            procstate.uninstall()
             rec.finish_example(self.model.ops)
             shutil.rmtree(self.dir, ignore_errors=True)
 
@@ -391,4 +469,7 @@ def run_case(case: dict) -> dict:
             res.update(signature=err.signature, detail=err.detail, tail=ops, history=ops)
         return res
     finally:
+        from sim import procstate
+
+        procstate.uninstall()
         shutil.rmtree(root, ignore_errors=True)
